@@ -222,6 +222,14 @@ func Bubble(t *testing.T, offset time.Duration, f func(mainDone *bool)) (out Bub
 			}
 			start := time.Now()
 			defer func() { out.SimTime = time.Since(start) }()
+			// a panic in the bubble's root goroutine would be re-panicked by
+			// testing and kill the worker: record it here instead
+			defer func() {
+				if e := recover(); e != nil {
+					out.PanicVal = e
+					out.PanicStack = string(debug.Stack())
+				}
+			}()
 			f(&mainDone)
 		})
 	}()
